@@ -4,6 +4,7 @@ use crate::script::{ScriptBH, SplitMix};
 use std::collections::BTreeMap;
 use std::io::Write;
 
+pub mod experiments;
 pub mod hll;
 pub mod oracles;
 pub mod props;
@@ -121,6 +122,11 @@ fn generate(prop: &str, ctx: &mut Ctx) {
         "C14" => props::gen_c14(ctx),
         "C15" | "C16" => props::gen_td(ctx, 150),
         "C04" => props::gen_td(ctx, 600),
+        "C03" => props::gen_c03(ctx),
+        "C05" => props::gen_c05(ctx),
+        "C07" => props::gen_c07(ctx),
+        "C08" => props::gen_c08(ctx),
+        "C11" => props::gen_c11(ctx),
         "C18" => props::gen_c18(ctx),
         "C19" => props::gen_c19(ctx),
         "C20" => props::gen_c20(ctx),
@@ -156,7 +162,8 @@ pub fn oracle(prop: &str, ops: &[String], ans: &[String]) -> Vec<Failure> {
             "C13" => oracles::oracle_c13(o, a),
             "C14" => oracles::oracle_c14(o, a),
             "C15" | "C16" | "C04" => oracles::oracle_td(o, a, prop),
-            "C18" => oracles::oracle_c18(o, a),
+            "C05" | "C18" => oracles::oracle_c18(o, a),
+            "C08" => oracles::oracle_c02(o, a),
             "C19" => oracles::oracle_both_equal(o, a, "cleared/cloned instance differs from fresh/original"),
             "C20" => {
                 let mut v = oracles::oracle_both_equal(o, a, "deserialised sketch differs from the original");
@@ -179,7 +186,25 @@ fn json_escape(s: &str) -> String {
 pub fn run(prop: &str, tier: &str, seed: u64, outdir: &str) {
     let mut ctx = Ctx::new(seed ^ 0xC0FFEE, tier_scale(tier));
     generate(prop, &mut ctx);
-    let fails = oracle(prop, &ctx.ops, &ctx.ans);
+    let mut fails = oracle(prop, &ctx.ops, &ctx.ans);
+    // sampling experiments / measurements on the real crate (no ops file: case 0)
+    let mut exp = experiments::Exp { rng: SplitMix(seed ^ 0xE5E5), scale: ctx.tier_scale, stats: BTreeMap::new(), fails: vec![], evals: 0 };
+    match prop {
+        "C03" => experiments::exp_c03(&mut exp),
+        "C04" => experiments::exp_c04(&mut exp),
+        "C05" => experiments::exp_c05(&mut exp),
+        "C07" => experiments::exp_c07(&mut exp),
+        "C08" => experiments::exp_c08(&mut exp),
+        "C11" => experiments::exp_c11(&mut exp),
+        _ => {}
+    }
+    for (k, v) in &exp.stats {
+        ctx.stats.insert(k.clone(), *v);
+    }
+    ctx.stats.insert("experiment.evaluations".into(), exp.evals);
+    for m in exp.fails {
+        fails.push(Failure { case: 0, line: 0, msg: m });
+    }
     std::fs::create_dir_all(outdir).unwrap();
     let mut f = std::io::BufWriter::new(std::fs::File::create(format!("{}/ops.txt", outdir)).unwrap());
     for l in &ctx.ops {
